@@ -7,7 +7,7 @@
    whole-config rejection, last-accepted configuration.  [compile] / [run] /
    [post] transcribe the Go code. *)
 From Coq Require Import List NArith ZArith Bool Arith Permutation Sorted.
-From Martian.C12 Require Import Model Proofs.
+From Martian.C12 Require Import Model Proofs Proofs_Atomic Gen_ServePost Proofs_Lock.
 Import ListNotations.
 
 (* For EVERY tree, kind of message and condition valuation: parsing with the
@@ -142,6 +142,80 @@ Example C12_example_concurrent :
   /\ c12_conc_ok KReq (fun _ => false) ts [true; false; true]
      [([], []); ([1], [])]%N = false.
 Proof. vm_compute. repeat split. Qed.
+
+(* Atomic replacement, as seen by any thread concurrent with the POSTs: for
+   EVERY interleaving of POSTs with one thread's observations (request half
+   acted / response half acted / GET), each method atomic, the observations
+   walk forward through (nothing, accepted tree 1, accepted tree 2, ...).  In
+   particular within one exchange the response half is never that of an older
+   configuration than the request half, and a GET never reports a
+   configuration other than one in force between the observations around it.
+   Other observing threads do not change the state, so this holds for each. *)
+Theorem C12_atomic_replacement_seen_by_concurrent_exchanges : forall cq cs ss,
+  explains_by (pmatch cq cs) (cfg_states (sposts ss)) (impl_steps cq cs 0 init_active ss).
+Proof. exact atomic_replacement. Qed.
+Print Assumptions C12_atomic_replacement_seen_by_concurrent_exchanges.
+
+(* "each POST is one atomic step" is the lock shape of servePOST in the source
+   (Gen_ServePost.v, regenerated on every run): config text, request modifier
+   and response modifier change inside one critical section; no mixed state is
+   ever visible. *)
+Theorem C12_servePOST_replaces_all_three_in_one_critical_section :
+  sp_atomic servePOST_events = true /\
+  forall st, In st (sp_visible servePOST_events false (false, false, false)) ->
+    st = (false, false, false) \/ st = (true, true, true).
+Proof. exact (conj servePOST_is_atomic servePOST_visible_states). Qed.
+Print Assumptions C12_servePOST_replaces_all_three_in_one_critical_section.
+
+Theorem C12_stress_oracle_is_the_property : forall cq cs ts statuses threads,
+  c12_stress_ok cq cs ts statuses threads = true <->
+  statuses = map (fun t => negb (has_bad t)) ts /\
+  forall obs, In obs threads ->
+    explains_by (pmatch cq cs) (cfg_states ts) obs /\
+    match obs with [] => True | o :: _ => pmatch cq cs (last obs o) (last (cfg_states ts) None) = true end.
+Proof. exact stress_ok_iff. Qed.
+Print Assumptions C12_stress_oracle_is_the_property.
+
+(* The conditions of the five filters have their own specification
+   ([cond_holds]); the real matchers' verdicts are compared with it. *)
+Theorem C12_condition_oracle_is_the_property : forall tbl m bits,
+  c12_bits_ok tbl m bits = true <->
+  forall k b, In (k, b) bits -> b = cond_of tbl m k.
+Proof. exact bits_ok_iff. Qed.
+Print Assumptions C12_condition_oracle_is_the_property.
+
+(* three separately locked steps are NOT atomic for the shape check *)
+Example C12_example_split_lock_not_atomic :
+  sp_atomic [SpLock; SpSetCfg; SpUnlock; SpLock; SpSetReq; SpUnlock; SpLock; SpSetRes; SpUnlock] = false
+  /\ sp_atomic [SpSetCfg; SpLock; SpSetReq; SpSetRes; SpUnlock] = false
+  /\ sp_atomic [SpLock; SpSetRes; SpSetCfg; SpSetReq; SpUnlock] = true.
+Proof. vm_compute. repeat split. Qed.
+
+(* an exchange that saw request half 2 then response half 1 is not explained *)
+Example C12_example_stress :
+  let ts := [Leaf 1 None true true false false; Bad 0; Leaf 2 None true true false false]%N in
+  c12_stress_ok (fun _ => false) (fun _ => false) ts [true; false; true]
+    [[PReq [] []; PRes [1] []; PCfg (Some 0%nat); PReq [1] []; PRes [2] []; PCfg (Some 2%nat)]%N] = true
+  /\ c12_stress_ok (fun _ => false) (fun _ => false) ts [true; false; true]
+    [[PReq [2] []; PRes [1] []; PReq [2] []; PRes [2] []]%N] = false
+  /\ c12_stress_ok (fun _ => false) (fun _ => false) ts [true; false; true]
+    [[PCfg (Some 2%nat); PReq [1] []; PRes [2] []]%N] = false.
+Proof. vm_compute. repeat split. Qed.
+
+From Coq Require Import String.
+Open Scope string_scope.
+Example C12_example_conditions :
+  let m := mkMsg "get" "http" "www.example.com" "/a" "tag=red&tag=blue"
+             [("X-Cond-1", "no"); ("X-Cond-1", "yes")] [("tag", "red"); ("tag", "blue")]
+             [("c1", "w"); ("c1", "v")] in
+  cond_holds (FQuery "tag" "blue") m = true /\ cond_holds (FQuery "tag" "green") m = false
+  /\ cond_holds (FQuery "tag" "") m = true /\ cond_holds (FHeader "x-cond-1" "yes") m = true
+  /\ cond_holds (FCookie "c1" "v") m = true /\ cond_holds (FCookie "c2" "") m = false
+  /\ cond_holds (FMethod "GET") m = true /\ cond_holds (FUrl "" "*.example.com" "/a" "") m = true
+  /\ cond_holds (FUrl "" "example.com" "" "") m = false /\ cond_holds (FUrl "https" "" "" "") m = false.
+Proof. vm_compute. repeat split. Qed.
+Close Scope string_scope.
+Open Scope list_scope.
 
 (* Non-vacuity. *)
 
